@@ -44,9 +44,11 @@ def bias_starts_first(w, en):
     return [s for s in en if s[0] == "start"]
 
 
-def bias_lag(who):
-    """keep one computation as late as possible (others run ahead: postponed-message paths)"""
+def bias_lag(who, r):
+    """keep one computation late (others run ahead: postponed-message paths); fair: it still runs 1 time in 8"""
     def f(w, en):
+        if r.random() < 0.125:
+            return en
         rest = [s for s in en if not (s[0] in ("deliver", "reinj") and s[-1] == who) and not (s[0] == "start" and s[1] == who)]
         return rest
     return f
@@ -77,7 +79,7 @@ def run_one(inst, algo, params, sched_seed, policy="random", wire=False, max_ste
     elif policy == "barrier":
         b = bias_barrier
     else:
-        b = bias_lag(r.choice(sorted(w.comps)))
+        b = bias_lag(r.choice(sorted(w.comps)), random.Random(sched_seed + 1))
     w.run_random(r, max_steps=max_steps, timers=timers, bias=b, stop=stop)
     return w
 
